@@ -44,7 +44,7 @@ def main():
             x = os.path.basename(d)
             if want and pid not in want:
                 continue
-            name = "{}-{}".format(pid, x)
+            name = "{}-{}{}".format(pid, os.environ.get("SEED_TAG", ""), x)
             patch = os.path.join(d, "patch.diff")
             demo = os.path.join(d, "demo.py")
             if not (os.path.exists(patch) and os.path.exists(demo)):
